@@ -16,39 +16,55 @@ func newAtomSet() *atomSet {
 	return &atomSet{precise: map[string]bool{}, whole: map[string]bool{}}
 }
 
+// collectAtoms walks the term DAG once (bound variables have globally unique names).
 func collectAtoms(t *Term, as *atomSet, bound map[string]bool) {
-	switch t.Op {
-	case "var":
-		if bound[t.Name] {
+	bn := map[string]bool{}
+	seen := map[*Term]bool{}
+	var cb func(t *Term)
+	cb = func(t *Term) {
+		if seen[t] {
 			return
 		}
-		if t.S.K == KArr {
-			as.whole[t.Name] = true
-		} else {
-			as.precise[t.Name] = true
-		}
-		return
-	case "select":
-		if t.Args[0].Op == "var" && t.Args[1].Op == "const" {
-			as.precise[t.Args[0].Name+"["+t.Args[1].V.String()+"]"] = true
-			return
-		}
-	case "app":
-		as.precise["@"+t.Name] = true
-	case "forall", "exists":
-		nb := map[string]bool{}
-		for k := range bound {
-			nb[k] = true
-		}
+		seen[t] = true
 		for _, b := range t.Bound {
-			nb[b.Name] = true
+			bn[b.Name] = true
 		}
-		collectAtoms(t.Args[0], as, nb)
-		return
+		for _, a := range t.Args {
+			cb(a)
+		}
 	}
-	for _, a := range t.Args {
-		collectAtoms(a, as, bound)
+	cb(t)
+	seen = map[*Term]bool{}
+	var walk func(t *Term)
+	walk = func(t *Term) {
+		if seen[t] {
+			return
+		}
+		seen[t] = true
+		switch t.Op {
+		case "var":
+			if bn[t.Name] {
+				return
+			}
+			if t.S.K == KArr {
+				as.whole[t.Name] = true
+			} else {
+				as.precise[t.Name] = true
+			}
+			return
+		case "select":
+			if t.Args[0].Op == "var" && t.Args[1].Op == "const" {
+				as.precise[t.Args[0].Name+"["+t.Args[1].V.String()+"]"] = true
+				return
+			}
+		case "app":
+			as.precise["@"+t.Name] = true
+		}
+		for _, a := range t.Args {
+			walk(a)
+		}
 	}
+	walk(t)
 }
 
 func arrOfCell(a string) string {
@@ -138,13 +154,22 @@ func slicePC(pc []*Term, goal *Term, depth int) []*Term {
 }
 
 func hasQuant(t *Term) bool {
-	if t.Op == "forall" || t.Op == "exists" {
-		return true
-	}
-	for _, a := range t.Args {
-		if hasQuant(a) {
+	seen := map[*Term]bool{}
+	var walk func(t *Term) bool
+	walk = func(t *Term) bool {
+		if seen[t] {
+			return false
+		}
+		seen[t] = true
+		if t.Op == "forall" || t.Op == "exists" {
 			return true
 		}
+		for _, a := range t.Args {
+			if walk(a) {
+				return true
+			}
+		}
+		return false
 	}
-	return false
+	return walk(t)
 }
